@@ -11,5 +11,11 @@ mkdir -p "$HERE/../../bin"
 # (their writes count as initialisation). Each entry is justified in DESIGN.md section 4, C19:
 #   Net.setRouter, Router.setRouter, resolver.setParent: called from Router.AddNet / AddRouter while the topology is built
 #   TBFQueueSizeInBytes: documented "Can only be set in constructor before using the TBF"
-CONFIG="Net.setRouter,Router.setRouter,resolver.setParent,TBFQueueSizeInBytes"
-cd /repo && "$HERE/../../bin/raceaudit" -config "$CONFIG" -out "$OUT" packetio deadline dpipe udp vnet
+#   newNAT, ListenConfig.Listen: constructors that complete the caller's configuration value (NATType, ListenConfig) before the
+#     object they return exists
+CONFIG="Net.setRouter,Router.setRouter,resolver.setParent,TBFQueueSizeInBytes,newNAT,ListenConfig.Listen"
+# Message types: a chunk is owned by one goroutine at a time and handed on through channels and queues (every hop that changes
+# one clones it first); ownership transfer is outside a lock discipline, so their fields are not audited (the race detector
+# workloads of the same check do cover them)
+MESSAGES="chunkIP,chunkUDP,chunkTCP"
+cd /repo && "$HERE/../../bin/raceaudit" -config "$CONFIG" -messages "$MESSAGES" -out "$OUT" packetio deadline dpipe udp vnet
